@@ -763,13 +763,13 @@ func main() {
 
 		// 2. random trees, model + oracle; two in three contain plain files named like excluded directories
 		//    (plz-out, blacklisted names, experimental dirs) and blacklisted BUILD file names
-		n := c.Scale(360, 9000)
+		n := c.Scale(360, 5000)
 		for i := 0; i < n; i++ {
 			r := c.Rng.Fork()
 			one(c, genInput(r, r.Chance(2, 3), 3), true)
 		}
 		// 3. oracle only
-		n = c.Scale(2500, 40000)
+		n = c.Scale(2500, 30000)
 		for i := 0; i < n; i++ {
 			r := c.Rng.Fork()
 			one(c, genInput(r, r.Chance(2, 3), 4), false)
